@@ -36,7 +36,11 @@ SPARSE = [({0: 1, 5: -1}, {0: 1}), ({3: 2}, {0: 1}), ({0: 1}, {0: 1, 4: 0.5}),
           ({2: -1, 6: 3}, {0: 2, 3: -1}), ({0: 1, 1: 1}, {0: -1, 7: 1}),
           # delays of two digits (the generated names m10, d11 ... sort differently as strings)
           ({0: 1}, {0: 1, 10: 0.5}), ({0: 1, 10: -1}, {0: 1, 9: 0.5, 11: -0.25}),
-          ({1: 2, 12: 1}, {0: 2, 2: 1, 12: -1}), ({0: 1, 9: 1, 10: 2, 11: 3}, {0: 3, 1: 1, 10: 1, 13: -2})]
+          ({1: 2, 12: 1}, {0: 2, 2: 1, 12: -1}), ({0: 1, 9: 1, 10: 2, 11: 3}, {0: 3, 1: 1, 10: 1, 13: -2}),
+          # neighbours of the special values +1 / -1 / 0 (they are NOT special)
+          ({0: 1 + 2.0 ** -30, 1: -1 - 2.0 ** -30}, {0: 1}), ({0: 1}, {0: 1 - 2.0 ** -30, 1: 0.9999999}),
+          ({0: 0.9999999, 2: 2.0 ** -40}, {0: -1.0000001, 1: -1 + 2.0 ** -29, 2: 1 + 2.0 ** -35}),
+          ({0: 1}, {0: -1 - 2.0 ** -31, 3: 1 - 2.0 ** -33})]
 
 
 def bounds(run):
@@ -90,7 +94,7 @@ def as_dict(v):
   return {k: dec(c) for k, c in enumerate(v) if dec(c) != 0}
 
 
-MEMS = ["none", "exact", "longer", "generator", "callable"]
+MEMS = ["none", "exact", "longer", "generator", "callable", "stream", "stream-copy"]
 ZEROS = ["sym", "Q0", "int0", "float0"]
 CTORS = ["list", "dict", "zexpr", "LinearFilter"]
 
@@ -125,6 +129,12 @@ def run_filter(case):
   elif memk == "generator":
     mem_arg = (v for v in itertools.chain(msyms, itertools.repeat(sym("extra"))))
     mem = msyms
+  elif memk == "stream":
+    # a Stream is iterable AND callable: it must be iterated, not called
+    mem_arg, mem = Stream(list(msyms) + [sym("extra1")]), msyms
+  elif memk == "stream-copy":
+    base = Stream(list(msyms) + [sym("extra1"), sym("extra2")])
+    mem_arg, mem = base.copy(), msyms
   else:
     def mem_arg(size):
       called.append(size)
